@@ -14,6 +14,22 @@ impl Ctx {
     pub fn new() -> Ctx {
         Ctx { hay: Arena::new(24), needle: Arena::new(8) }
     }
+
+    /// Make both arenas large enough for the operands of this case (the big
+    /// cases of the cost property need megabytes; the default stays small so
+    /// that guard pages are close to everything else).
+    pub fn reserve(&mut self, c: &Case) {
+        let page = crate::arena::PAGE;
+        let hexlen = |k: &str| c.str(k).len() / 2;
+        let hay_need = hexlen("h").max(hexlen("x").max(hexlen("y"))) + 3 * page;
+        let needle_need = hexlen("x").max(hexlen("y")).max(hexlen("fx")) + 3 * page;
+        if hay_need > self.hay.capacity() {
+            self.hay = Arena::new(hay_need / page + 2);
+        }
+        if needle_need > self.needle.capacity() && hexlen("fx") == 0 {
+            self.needle = Arena::new(needle_need / page + 2);
+        }
+    }
 }
 
 fn flush_of(n: usize) -> Flush {
